@@ -278,6 +278,26 @@ func (engine) Run(ci any) lib.Result {
 				sticky = o.Cls
 			}
 		}
+		// Workflow: a conflict of mapping targets met by the deferred calls of a Compile is not
+		// remembered as a build error, but it sticks all the same (theorem deferred_error_sticks):
+		// in a workflow that has not been compiled, no later Compile may succeed
+		if c.FE == "workflow" {
+			failedAt := -1
+			for i, o := range first.obs {
+				if c.Calls[i].Op != "compile" {
+					continue
+				}
+				if o.K == "ok" && failedAt >= 0 {
+					fail("not-sticky", fmt.Sprintf("Compile at %d succeeded after the Compile at %d had failed on a deferred declaration (%s)", i, failedAt, first.obs[failedAt].Cls))
+				}
+				if o.K == "ok" {
+					break
+				}
+				if failedAt < 0 && o.K == "err" && (o.Cls == "EMapped" || o.Cls == "EMapConflict") {
+					failedAt = i
+				}
+			}
+		}
 	}
 	// (3) no modification after a successful Compile
 	if c.FE == "graph" && okCompileAt >= 0 {
